@@ -793,7 +793,23 @@ class APTMirror:
         with open(lock_file, "wb") as fp:
             try:
                 flock(fp, LOCK_EX | LOCK_NB)
+
+                # A finishing instance may have removed the lock file after we
+                # opened it: the lock we hold is then useless
+                try:
+                    lock_is_current = (
+                        os.fstat(fp.fileno()).st_ino == os.stat(lock_file).st_ino
+                    )
+                except FileNotFoundError:
+                    lock_is_current = False
+
+                if not lock_is_current:
+                    self.die("apt-mirror is already running, exiting")
+
                 yield
+
+                # Remove the lock file while the lock is still held
+                lock_file.unlink(missing_ok=True)
             except OSError as ex:
                 if ex.errno == EWOULDBLOCK:
                     self.die("apt-mirror is already running, exiting")
@@ -803,8 +819,6 @@ class APTMirror:
                     f"Unable to obtain lock on {lock_file}: error {ex.errno}:"
                     f" {strerror}"
                 )
-
-        lock_file.unlink(missing_ok=True)
 
     def _write_hashsums(
         self,
